@@ -308,6 +308,12 @@ deriving Repr, DecidableEq
 /-- `snapshot_push_backoff_duration(failure_count, policy)` in ms -/
 def pushBackoff (base cap count : Nat) : Nat := min (base * 2 ^ (min count 20)) cap
 
+/-- Phase 6: `Instant::now() < retry_at` -/
+def inBackoff (retryAt : Option Nat) (now : Nat) : Bool :=
+  match retryAt with
+  | some r => decide (now < r)
+  | none => false
+
 def wStep (s0 : WState) (dt : Nat) : WState × List WCall :=
   let s := { s0 with now := s0.now + dt }
   if s.first > 1 ∧ s.next < s.first then
@@ -315,10 +321,7 @@ def wStep (s0 : WState) (dt : Nat) : WState × List WCall :=
     match s.snap with
     | none => (s, [])
     | some _ =>
-        let inBackoff := match s.retryAt with
-          | some r => decide (s.now < r)
-          | none => false
-        if inBackoff then (s, [])
+        if inBackoff s0.retryAt (s0.now + dt) then (s, [])
         else if s.inProgress then (s, [])            -- worker drops the duplicate Snapshot task
         else if s.failsLeft > 0 then
           -- flag set, push fails, flag cleared, SnapshotPushCompleted{false}
@@ -348,7 +351,6 @@ def wMon (first last : Nat) (snap : Option Nat) (base cap : Nat) :
       let due := target && snap.isSome && (match ra with | some r => decide (r ≤ now) | none => true)
       if due && !pushed then
         some (if fc > 0 then "peer-never-served-after-failed-push" else "lagging-peer-push-not-attempted")
-      else if target && snap.isNone then some "lagging-peer-no-snapshot"
       else if !target && !(calls.any (fun c => match c with | .append _ => true | _ => false)) then
         some "peer-append-dropped"
       else if calls.contains .pushOk && next' != last + 1 then some "next-index-not-reset-after-push"
